@@ -28,7 +28,10 @@ Inductive c15_case :=
         (rcv : Z)        (* OnRecvPacket: 0 passed down, 1 error ack, 2 continued, 3 other, -1 panic *)
 | CRoute (r : option route) (obs : Z)
 | CMeta (m : swap_meta) (obs : Z)
-| CHead (name : string) (req : fval) (obs : Z)
+| CHead (name : string) (req : fval)
+        (n : Z)                    (* length of the stored slice the request indexes into (shard hashes of the addressed DA item), 0 otherwise *)
+        (o : option (list bool))   (* outcomes of the state-dependent branches, when the harness can determine them from the state *)
+        (obs : Z)
 | CLiq (base : bool)      (* types.LiquidityBase (true) / LiquidityQuote (false), called directly *)
        (amount sa sb : Z)  (* amount, the two sqrt prices (raw decimals) *)
        (obs : Z) (v : Z)   (* 0 = returned the raw decimal v, 3 = panic "division by zero", 4 = panic "Int overflow", 2 = other panic *)
@@ -73,12 +76,12 @@ Fixpoint find_sig (name : string) (l : list (string * bool * sig)) : option sig 
   | (n, _, s) :: tl => if String.eqb name n then Some s else find_sig name tl
   end.
 
-Definition head_corr (name : string) (req : fval) (obs : Z) : bool :=
+Definition head_corr (name : string) (req : fval) (n : Z) (o : option (list bool)) (obs : Z) : bool :=
   match find_spec name (specs all_on), find_sig name methods_gen with
   | Some (_, cs), Some sg =>
       conforms req sg && wf_val req &&
-      match run_static cs req with
-      | Err _ => obs =? O_ERR          (* the static part of the head rejects: the handler must return an error *)
+      match (match o with Some ol => run n ol cs req | None => run_static n cs req end) with
+      | Err _ => obs =? O_ERR          (* the head rejects (statically, or given the branch outcomes): the handler must return an error *)
       | Panic => obs =? O_PANIC
       | Ok _ => true                   (* beyond the static part the model makes no prediction *)
       end
@@ -158,8 +161,8 @@ Definition c15_check (c : c15_case) : list Z :=
       flag 0 (class_of (route_validate patched r) =? obs) ++ flag 1 (negb (obs =? O_PANIC))
   | CMeta m obs =>
       flag 0 (class_of (meta_validate patched m) =? obs) ++ flag 1 (negb (obs =? O_PANIC))
-  | CHead name req obs =>
-      flag 0 (head_corr name req obs) ++ flag 1 (negb (obs =? O_PANIC)) ++
+  | CHead name req n o obs =>
+      flag 0 (head_corr name req n o obs) ++ flag 1 (negb (obs =? O_PANIC)) ++
       (if val_big req then [101] else []) ++ (if trig_tick name req then [102] else [])
   | CLiq base amount sa sb obs v =>
       (* the pure function is not an entry point: its overflow on out-of-range operands is not a
